@@ -20,8 +20,13 @@ namespace verif
     }
 
     // returns true if the child ended normally (exit code 0)
+    // (after three executions of one run have hit the watchdog - each of them is reported - the remaining ones get
+    // a short leash: a tree on which the library hangs should not cost 20 s per execution)
     inline bool run_child(const std::function<void()>& body, unsigned watchdog_s = 20)
     {
+        static unsigned timeouts = 0;
+        if (timeouts >= 3 && watchdog_s > 5)
+            watchdog_s = 5;
         pid_t pid = fork();
         if (pid < 0)
             std::abort();
@@ -40,6 +45,8 @@ namespace verif
         if (WIFSIGNALED(status))
         {
             int sig = WTERMSIG(status);
+            if (sig == SIGALRM)
+                ++timeouts;
             Ev("died").s("how", sig == SIGALRM ? "timeout" : "signal").i("code", sig);
         }
         else
